@@ -41,6 +41,6 @@ def handle (op : String) (args : List String) : Option String :=
       if rs.length ≠ n then none
       let rs ← rs.mapM Driver.C18.parseRing
       pure (hexOf (Der.derEncryptedKeys rs))
-  | _, _ => none
+  | op, args => Driver.V1Keys.handleC07 op args
 
 end Driver.C07
